@@ -64,6 +64,108 @@ pub fn observe(s: &str) -> Obs {
     r.unwrap_or(Obs::Panic)
 }
 
+/// the PrettyDecimal the real parser reads when the literal stands in a syntactic position
+fn observe_in_context(lit: &str, pos: usize) -> Obs {
+    use okane_core::parse::{parse_ledger, ParseOptions};
+    use okane_core::syntax::{self, expr::ValueExpr, plain};
+    let text = match pos {
+        0 => format!("2024/01/01 x\n    A  {} USD\n    B\n", lit),
+        1 => format!("2024/01/01 x\n    A  1 USD @ {} EUR\n    B\n", lit),
+        2 => format!("2024/01/01 x\n    A  1 USD @@ {} EUR\n    B\n", lit),
+        3 => format!("2024/01/01 x\n    A  1 USD {{{} EUR}}\n    B\n", lit),
+        4 => format!("2024/01/01 x\n    A  1 USD = {} USD\n    B\n", lit),
+        5 => format!("2024/01/01 x\n    A  = {}\n    B\n", lit),
+        6 => format!("commodity USD\n    format {} USD\n", lit),
+        _ => format!("2024/01/01 x\n    A  ({} USD)\n    B\n", lit),
+    };
+    let r = std::panic::catch_unwind(|| {
+        let opts = ParseOptions::default();
+        let mut found: Option<okane_core::syntax::pretty_decimal::PrettyDecimal> = None;
+        let mut n = 0;
+        for item in parse_ledger::<plain::Ident>(&opts, &text) {
+            let (_, e) = match item {
+                Ok(x) => x,
+                Err(e) => return Obs::Err { kind: 9, pos: 0, text: format!("{}", e).chars().take(80).collect() },
+            };
+            n += 1;
+            fn lit_of(v: &ValueExpr) -> Option<okane_core::syntax::pretty_decimal::PrettyDecimal> {
+                match v {
+                    ValueExpr::Amount(a) => Some(a.value.clone()),
+                    ValueExpr::Paren(okane_core::syntax::expr::Expr::Value(b)) => lit_of(b),
+                    _ => None,
+                }
+            }
+            fn exch(x: &syntax::Exchange) -> Option<okane_core::syntax::pretty_decimal::PrettyDecimal> {
+                match x {
+                    syntax::Exchange::Rate(v) | syntax::Exchange::Total(v) => lit_of(v),
+                }
+            }
+            match &e {
+                plain::LedgerEntry::Txn(t) => {
+                    let p = &t.posts[0];
+                    found = match pos {
+                        0 | 7 => p.amount.as_ref().and_then(|a| lit_of(&a.amount)),
+                        1 | 2 => p.amount.as_ref().and_then(|a| a.cost.as_ref()).and_then(exch),
+                        3 => p.amount.as_ref().and_then(|a| a.lot.price.as_ref()).and_then(exch),
+                        _ => p.balance.as_ref().and_then(lit_of),
+                    };
+                }
+                plain::LedgerEntry::Commodity(c) => {
+                    for d in &c.details {
+                        if let syntax::CommodityDetail::Format(a) = d {
+                            found = Some(a.value.clone());
+                        }
+                    }
+                }
+                _ => {}
+            }
+        }
+        match found {
+            Some(pd) if n == 1 => {
+                let v = pd.value;
+                Obs::Ok {
+                    neg: v.is_sign_negative(),
+                    mant: v.mantissa().unsigned_abs(),
+                    scale: v.scale(),
+                    fmt: match pd.format {
+                        None => 0,
+                        Some(Format::Plain) => 1,
+                        Some(Format::Comma3Dot) => 2,
+                        #[allow(unreachable_patterns)]
+                        Some(_) => 9,
+                    },
+                    shown: pd.to_string(),
+                }
+            }
+            _ => Obs::Err { kind: 8, pos: 0, text: "parsed, but the literal was not read as one number in that position".into() },
+        }
+    });
+    r.unwrap_or(Obs::Panic)
+}
+
+const POSITIONS: [&str; 8] = ["amount", "cost@", "cost@@", "lot", "assertion", "assignment", "format", "paren"];
+
+fn in_context(sh: &mut Shards, st: &mut Stats, s: &[u8]) {
+    // only strings the tokenizer hands over whole: optional leading '-', then [0-9,.]+
+    let body = if s.first() == Some(&b'-') { &s[1..] } else { s };
+    if body.is_empty() || !body.iter().all(|c| c.is_ascii_digit() || *c == b',' || *c == b'.') {
+        return;
+    }
+    let text = std::str::from_utf8(s).unwrap();
+    for pos in 0..POSITIONS.len() {
+        // a leading '-' inside parentheses is the unary operator, not part of the literal
+        if pos == 7 && s.first() == Some(&b'-') {
+            continue;
+        }
+        let o = observe_in_context(text, pos);
+        st.eval(&(s.to_vec(), pos), nontrivial(s));
+        st.count(&format!("position:{}", POSITIONS[pos]));
+        let rep = json!({"property": "C07", "input": text, "position": POSITIONS[pos], "impl": obs_json(&o),
+                         "reproduce": format!("parse a ledger with {:?} as {}", text, POSITIONS[pos])});
+        sh.push(format!("InCtx {} ({})", coq::bytes_list(s), obs_term(&o)), vec![rep]);
+    }
+}
+
 fn obs_term(o: &Obs) -> String {
     match o {
         Obs::Ok { neg, mant, scale, fmt, shown } => format!(
@@ -262,7 +364,7 @@ pub fn run(o: &Opts) {
         o.shards,
         "From Coq Require Import List NArith.\nFrom Okv Require Import Run.Classify_C07.\nImport ListNotations.\nOpen Scope N_scope.",
     );
-    st.rule = "exhaustive strings over {0,1,2,9,',','.','-'} up to a bounded length (and over all 13 symbols in the thorough tier) + seeded random literals up to 45+ digits concentrated at 2^96/2^127 + corpus; a case is the input string; non-trivial = has a digit and a non-digit, or more than 28 digits; distinct by input bytes".to_string();
+    st.rule = "the scanner directly and in eight syntactic positions through the real parser (amount, @ cost, @@ cost, lot price, assertion, assignment, format directive, parenthesised); exhaustive strings over {0,1,2,9,',','.','-'} up to a bounded length (and over all 13 symbols in the thorough tier) + seeded random literals up to 45+ digits concentrated at 2^96/2^127 + corpus; a case is the input string; non-trivial = has a digit and a non-digit, or more than 28 digits; distinct by input bytes".to_string();
     st.assumptions.push("input to PrettyDecimal::from_str is valid UTF-8 over the ASCII symbols 0-9 , . - plus a few other bytes in the corpus".to_string());
     // 1. corpus (past findings first)
     let corpus = [
@@ -276,6 +378,7 @@ pub fn run(o: &Opts) {
     ];
     for s in corpus {
         single(&mut sh, &mut st, s.as_bytes(), "corpus");
+        in_context(&mut sh, &mut st, s.as_bytes());
     }
     if let Ok(rd) = std::fs::read_dir(&o.corpus) {
         let mut files: Vec<_> = rd.filter_map(|e| e.ok()).map(|e| e.path()).collect();
@@ -301,9 +404,23 @@ pub fn run(o: &Opts) {
     // 3. random
     let mut r = Rng::new(o.seed, 7);
     let n = if o.thorough { 60000 } else { 3000 };
-    for _ in 0..n {
+    for k in 0..n {
         let s = random_literal(&mut r);
         single(&mut sh, &mut st, &s, "random");
+        if k % 6 == 0 {
+            in_context(&mut sh, &mut st, &s);
+        }
+    }
+    // every syntactic position, exhaustively for short strings
+    for len in 1..=(if o.thorough { 5 } else { 4 }) {
+        for s in strings(b"0129,.", len) {
+            in_context(&mut sh, &mut st, &s);
+            let mut m = vec![b'-'];
+            m.extend_from_slice(&s);
+            if len <= 3 {
+                in_context(&mut sh, &mut st, &m);
+            }
+        }
     }
     sh.finish(&st);
 }
